@@ -176,9 +176,9 @@ def reference_table(include_corpus=True):
         tab[name] = row
         if name == "00-minimal":
             r = al.parse(text, {"c": "tm", "d": "en"}, "ast", False, "text")
-            if r["kind"] != "doc" or c["kind"] != "pickles" or r["toks"] < 4 or r["reads"] < 4 or not r["draws"]:
-                raise Harness("sanity: the reference parse of the minimal pool document is %s/%s (toks %s, reads %s, draws %s): %s" % (
-                    r["kind"], c["kind"], r["toks"], r["reads"], len(r["draws"]), engine.excerpt(r["norm"])))
+            if r["kind"] != "doc" or c["kind"] != "pickles" or r["gates"] < 4 or r["reads"] < 4 or not r["draws"]:
+                raise Harness("sanity: the reference parse of the minimal pool document is %s/%s (gates %s, reads %s, draws %s): %s" % (
+                    r["kind"], c["kind"], r["gates"], r["reads"], len(r["draws"]), engine.excerpt(r["norm"])))
     return tab
 
 
